@@ -1077,6 +1077,12 @@ func replayCase(sub string, raw json.RawMessage) string {
 			return m
 		}
 		return checkMal(c)
+	case "multi-bad":
+		var c multiCase
+		if m := un(&c); m != "" {
+			return m
+		}
+		return checkMulti(c)
 	case "yaml-trunc":
 		var c yamlCase
 		if m := un(&c); m != "" {
@@ -1508,6 +1514,45 @@ func TestC16(t *testing.T) {
 		rec.Sample(c)
 		if msg := checkMal(c); msg != "" {
 			t.Fatalf("%s", rec.Fail("malformed", c, "%s", msg))
+		}
+	})
+
+	rec.Rapid(t, "multi-bad", rec.Scale(2400, 40000), func(t *rapid.T) {
+		c := genMultiCase(t)
+		rec.Eval()
+		rec.Class("multi/" + c.Mode + "/" + c.Variant)
+		nt := false
+		for i, s := range c.Srcs {
+			_, bad, _ := s.expect(c.Mode, i == len(c.Srcs)-1)
+			if !bad {
+				continue
+			}
+			pos := "middle"
+			if i == 0 {
+				pos = "first"
+			} else if i == len(c.Srcs)-1 {
+				pos = "last"
+			}
+			rec.Class("multi/bad-" + pos)
+			if s.Op == "-" {
+				rec.Class("multi/bad-stdin")
+			}
+			if s.Kind != "text" {
+				rec.Class("multi/bad-" + s.Kind)
+			}
+			for j := i + 1; j < len(c.Srcs); j++ {
+				if vs, _, _ := c.Srcs[j].expect(c.Mode, j == len(c.Srcs)-1); len(vs) > 0 {
+					nt = true
+				}
+			}
+		}
+		if nt {
+			rec.Class("multi/values-after-bad-source")
+			rec.NT("multi/" + key(c))
+		}
+		rec.Sample(c)
+		if msg := checkMulti(c); msg != "" {
+			t.Fatalf("%s", rec.Fail("multi-bad", c, "%s", msg))
 		}
 	})
 
